@@ -78,13 +78,9 @@ theorem dp_postprocess {Ω ι : Type*} [MeasurableSpace Ω] [Countable ι] (μ :
 
 /-! ### D: the model samplers end to end -/
 
-/-- over ℝ the float addition and rounding of `Geometric.randomise` are exact: the output is `value + noise` -/
+/-- `Geometric.randomise` is `value + noise` in exact integer arithmetic (c709270) -/
 theorem geomRandomise_real (eps : ℝ) (sens : ℕ) (x : ℤ) (u : ℝ) :
-    geomRandomise eps sens x u = if 0 < sens then x + geomNoise (-eps / (sens : ℝ)) u else x := by
-  unfold geomRandomise
-  split
-  · rw [transc_floor, ← Int.cast_add, Int.floor_intCast]
-  · rfl
+    geomRandomise eps sens x u = if 0 < sens then x + geomNoise (-eps / (sens : ℝ)) u else x := rfl
 
 theorem geomRandomise_cell (eps : ℝ) (sens : ℕ) (hsens : 0 < sens) (x o : ℤ) :
     {u : ℝ | u ∈ Ico (0 : ℝ) 1 ∧ geomRandomise eps sens x u = o} =
